@@ -39,10 +39,11 @@ PROPS = {
 PROPS["C01"] = {
     "module": "PropC01",
     "theorems": ["C01_sound", "C01_decodes", "C01_ascii_partial", "C01_ascii_refuted",
-                 "C01_decodes_single_byte_modelled", "C01_single_byte_decoding_is_bytewise"],
+                 "C01_decodes_single_byte_modelled", "C01_single_byte_decoding_is_bytewise",
+                 "C01_no_single_byte_table_holds_feff", "C01_decodes_with_the_crates_tables"],
     "model_targets": ["Model/Decode.vo"],
     "runs": [detect_run("C01", 260, 4000, bigq=2, bigt=12),
-             {"level": "decode", "args_quick": ["--n", "600"], "args_thorough": ["--n", "20000"]}],
+             {"level": "decode", "args_quick": ["--n", "600"], "args_thorough": ["--n", "20000"]}, NAMES_RUN],
     "search": detect_search("C01"),
     "rule": "detection cases = fixed witnesses + corpus files + generated (corpus slices, texts re-encoded into any supported "
             "encoding, marks, declarations, ASCII with high bytes at random offsets incl. between the sampled chunks, tiny, binary, "
@@ -241,7 +242,8 @@ PROPS["C03"] = {
     "module": "PropC03",
     "theorems": ["C03_sorted_unique", "C03_unicode_ranges_order_independent", "C03_marks_order_independent",
                  "C03_marks_keys_distinct", "C03_coherence_function_of_visited",
-                 "C03_suspicious_keyword_clause_is_set_level", "C03_suspicious_range_symmetric"],
+                 "C03_suspicious_keyword_clause_is_set_level", "C03_suspicious_range_symmetric",
+                 "C03_layers_partition", "C03_layers_in_order_of_first_appearance"],
     "model_targets": ["Model/Cd.vo", "Model/Md32.vo"],
     "runs": [{"kind": "launches", "level": "launches", "launches_quick": 3, "launches_thorough": 16,
               "args_quick": ["--extra", "300", "--rounds", "4"], "args_thorough": ["--extra", "3000", "--rounds", "32"]},
